@@ -446,10 +446,11 @@ func sanitizeValueLog(store *file.LogFile) (uint32, error) {
 		offset = validEnd
 	}
 
-	switch err := eIter.Err(); err {
-	case nil, io.EOF:
+	switch err := eIter.Err(); {
+	case err == nil, err == io.EOF:
 		return validEnd, nil
-	case kv.ErrPartialEntry, kv.ErrBadChecksum:
+	case err == kv.ErrPartialEntry, err == kv.ErrBadChecksum, stderrors.Is(err, kv.ErrBadHeader):
+		// a torn tail can start with arbitrary bytes (the mapping is not written front to back)
 		return validEnd, utils.ErrTruncate
 	default:
 		return validEnd, err
@@ -529,10 +530,10 @@ func iterateLogFile(store *file.LogFile, bucket uint32, fid uint32, offset uint3
 		}
 	}
 
-	switch err := stream.Err(); err {
-	case nil, io.EOF:
+	switch err := stream.Err(); {
+	case err == nil, err == io.EOF:
 		return validEndOffset, nil
-	case kv.ErrPartialEntry, kv.ErrBadChecksum:
+	case err == kv.ErrPartialEntry, err == kv.ErrBadChecksum, stderrors.Is(err, kv.ErrBadHeader):
 		return validEndOffset, nil
 	default:
 		return 0, err
